@@ -32,8 +32,8 @@ def setup_slot(n):
         sh(["git", "-C", repo, "checkout", "-q", "--", "."])
     fresh = not os.path.exists(f"{verif}/harness/target")
     os.makedirs(verif, exist_ok=True)
-    sh(["rsync", "-a", "--delete", "--exclude", ".git", "--exclude", "harness/target*", "--exclude", "scratch",
-        "--exclude", "evidence", "--exclude", "replays", "--exclude", "seeded", "--exclude", "bin", "/verif/", verif + "/"])
+    sh(["rsync", "-a", "--delete", "--exclude", "/.git", "--exclude", "/harness/target*", "--exclude", "/scratch",
+        "--exclude", "/evidence", "--exclude", "/replays", "--exclude", "/seeded", "--exclude", "/bin", "/verif/", verif + "/"])
     for sub in ("scratch", "evidence", "replays", "bin/solvers"):
         os.makedirs(f"{verif}/{sub}", exist_ok=True)
     p = f"{verif}/harness/Cargo.toml"
